@@ -11,6 +11,31 @@ import (
 // without fraction/exponent for integer targets, range-checked; true/false for bool). Any other
 // target type aborts the path as unsupported.
 func init() {
+	// json.Marshal is modelled only for larking's twirpError{Code, Message string; Meta map} with a
+	// message that needs no escaping; the output is byte-identical to encoding/json's.
+	reg("encoding/json.Marshal", func(m *Machine, fn *ssa.Function, args []Value) Value {
+		i := args[0].(Iface)
+		if i.T == nil || i.T.String() != "*larking.io/larking.twirpError" {
+			m.unsupported("json.Marshal of " + m.show(i))
+		}
+		st := (*i.V.(*Value)).(Struct)
+		code, msg := st[0].(Str), st[1].(Str)
+		meta, _ := st[2].(*Map)
+		if meta != nil {
+			m.unsupported("json.Marshal of twirpError with meta")
+		}
+		for k := 0; k < msg.Len(); k++ {
+			c := m.strAt(msg, k)
+			plain := m.C.And(m.C.And(m.C.Cmp(OpUle, m.C.BV(8, 0x20), c), m.C.Cmp(OpUlt, c, m.C.BV(8, 0x7f))),
+				m.C.Not(m.C.Or(m.C.Or(m.C.Eq(c, m.C.BV(8, '"')), m.C.Eq(c, m.C.BV(8, '\\'))),
+					m.C.Or(m.C.Or(m.C.Eq(c, m.C.BV(8, '<')), m.C.Eq(c, m.C.BV(8, '>'))), m.C.Eq(c, m.C.BV(8, '&'))))))
+			if !m.Decide(plain) {
+				m.unsupported("json.Marshal: message byte needs escaping (not modelled)")
+			}
+		}
+		out := m.strConcat(m.strConcat(m.strConcat(Str{S: `{"code":"`}, code), m.strConcat(Str{S: `","msg":"`}, msg)), Str{S: `","meta":null}`})
+		return Tuple{m.strToBytes(out), Iface{}}
+	})
 	reg("encoding/json.Unmarshal", func(m *Machine, fn *ssa.Function, args []Value) Value {
 		data := m.bytesToStr(args[0].(Slice))
 		target := args[1].(Iface)
